@@ -50,6 +50,9 @@ def run(check, pool, Task):
     wrappers.run_arrays(check, pool, Task, 'C14', ('length', 'area'), derivs=['slice[1:]'], dtypes=('int32', 'int64') if thorough else ('int32',))
     wrappers.run_boundary(check, pool, Task, 'C14')
 
+    from . import glue
+    glue.run(check, pool, Task, ('line', 'multipolygon'))
+
 
 def replay(path):
     import json
